@@ -1,6 +1,6 @@
-(* C18 — The server buffer allocator is invisible. Theorems only; proofs in Proofs/AllocP.v *)
-From Coq Require Import List Bool Arith.
-From Sftp Require Import Sched.Alloc Sched.AllocTrace Proofs.AllocP Proofs.AllocTraceP.
+(* C18 — The server buffer allocator is invisible. Theorems only; proofs in Proofs/AllocP.v, Proofs/AllocTraceP.v, Proofs/PageMgrP.v *)
+From Coq Require Import List Bool Arith Strings.Byte.
+From Sftp Require Import Base.GoSem Sched.Alloc Sched.AllocTrace Sched.PageMgr Proofs.AllocP Proofs.AllocTraceP Proofs.PageMgrP.
 Import ListNotations.
 
 (* for every sequence of GetPage / ReleasePages / Free (every request stream and schedule induces one): a page is never
@@ -42,10 +42,36 @@ Theorem C18_accepted_get_not_in_use : forall pre oid p post a,
 Proof. exact accepted_get_not_in_use. Qed.
 Print Assumptions C18_accepted_get_not_in_use.
 
-(* PARTIAL: byte-identity of the response streams with and without the allocator follows from the three facts above
-   together with C02's ordering, but that composition (responses read their page at send time) is tied by the oracle of
-   family c18 (the same programs under the same gate schedule, allocator off vs on), not yet proved as one theorem. *)
+(* ===== page contents (Sched/PageMgr.v): the allocator is invisible =====
+   A request's receive buffer and the data slice of its READ response live in pages lent for its order id; the decoded
+   WRITE/SETSTAT request points into the receive page, the DATA response into the data page; the response is written at send
+   time and only then are the pages released. For EVERY interleaving of receiving (PRecv), handling (PWork) and sending
+   (PSend) of any number of requests: each worker sees exactly the request bytes received for its request, and each
+   response goes out with exactly the payload its worker produced - i.e. what happens without the allocator, where every
+   buffer is private. *)
+Theorem C18_allocator_invisible : forall tr s oid b seen d out,
+  prun p0 tr = Some s -> In (oid, (b, seen, d, out)) (pouts s) -> seen = b /\ out = d.
+Proof. exact allocator_invisible. Qed.
+Print Assumptions C18_allocator_invisible.
+
+(* a buffer is not reused before the response that refers to it has been written *)
+Theorem C18_pages_hold_until_sent : forall tr s oid q d seen b,
+  prun p0 tr = Some s -> In (oid, (Some q, d, seen, b)) (pworks s) -> ~ In oid (psent s) ->
+  In q (pages_of oid (used (pa s))) /\ pmem s q = d.
+Proof. exact pages_hold_until_sent. Qed.
+Print Assumptions C18_pages_hold_until_sent.
+
+(* MODELLED, NOT PROVED ABOUT THE CODE: that recvPacket/getDataSlice take their pages for the request's own order id and that
+   the release happens after the write (maybeSendPackets) - the first is what the recorded allocator traces show (family alt:
+   the G/L events carry the order ids), the second is the order of two statements; both are what the seeded changes C18-m1,
+   C18-m2, C15-m2 break and the checks report. Byte-identity of whole response streams additionally needs C02's order. *)
 Example C18_nonvacuous :
   let a := fold_left astep [AGet 1; AGet 1; AGet 2; ARelease 1; AGet 3] alloc0 in
   used a = [(2, [2]); (3, [1])] /\ available a = [0].
 Proof. vm_compute. split; reflexivity. Qed.
+
+Example C18_pages_nonvacuous :
+  exists s, prun p0 [PRecv 1 [x01]%byte; PRecv 2 [x02]%byte; PWork 2 [x22]%byte true; PWork 1 [x11]%byte true; PSend 1; PRecv 3 [x03]%byte;
+                     PWork 3 [x33]%byte true; PSend 2; PSend 3] = Some s /\
+            map fst (pouts s) = [3; 2; 1] /\ length (available (pa s)) = 4.
+Proof. eexists. split; [vm_compute; reflexivity|]. vm_compute. split; reflexivity. Qed.
